@@ -456,7 +456,14 @@ func (e *venc) oneofLoser(m protoreflect.Message, fd protoreflect.FieldDescripto
 func (e *venc) unknownField(md protoreflect.MessageDescriptor) []byte {
 	var num int
 	for {
-		switch e.r.Intn(5) {
+		switch e.r.Intn(6) {
+		case 5:
+			// the number of an extension that is declared in the same file - for ANOTHER message: here it is just a number
+			if xs := fileExtensionNumbers(md.ParentFile()); len(xs) > 0 {
+				num = xs[e.r.Intn(len(xs))]
+			} else {
+				num = 100
+			}
 		case 0:
 			num = 1 + e.r.Intn(60)
 		case 1:
@@ -571,4 +578,25 @@ func splitOccurrences(field []byte) [][]byte {
 		refwire.AppendLen(refwire.AppendKey(nil, fs[0].Num, refwire.WTLen), fs[0].Payload[:cut]),
 		refwire.AppendLen(refwire.AppendKey(nil, fs[0].Num, refwire.WTLen), fs[0].Payload[cut:]),
 	}
+}
+
+// fileExtensionNumbers lists the field numbers of all extensions declared in fd (file level and nested).
+func fileExtensionNumbers(fd protoreflect.FileDescriptor) []int {
+	var out []int
+	add := func(xs protoreflect.ExtensionDescriptors) {
+		for i := 0; i < xs.Len(); i++ {
+			out = append(out, int(xs.Get(i).Number()))
+		}
+	}
+	add(fd.Extensions())
+	var walk func(ms protoreflect.MessageDescriptors)
+	walk = func(ms protoreflect.MessageDescriptors) {
+		for i := 0; i < ms.Len(); i++ {
+			add(ms.Get(i).Extensions())
+			walk(ms.Get(i).Messages())
+		}
+	}
+	walk(fd.Messages())
+	sort.Ints(out)
+	return out
 }
